@@ -586,7 +586,42 @@ def _g12(ctx):
     return n
 
 
+def _g13(ctx):
+    """Helpers that serve several independently requested outputs keep one request record per output (`self.<x>_clk_out`); inside
+    the `if self.<x>_clk_out:` block of do_finalize the frequency / margin that produce that output's divider are read from the same
+    record (a block that reads another output's record emits that output's divider -- or fails when only one was requested)."""
+    import os
+    n = 0
+    for fname in sorted(os.listdir(os.path.join(ctx.repo, D))):
+        if not fname.endswith(".py") or fname.startswith("__"):
+            continue
+        m = ctx.mod(D + fname)
+        for cname, cdef in m.classes.items():
+            fin = [f for f in cdef.body if isinstance(f, ast.FunctionDef) and f.name == "do_finalize"]
+            if not fin:
+                continue
+            for blk in [x for x in ast.walk(fin[0]) if isinstance(x, ast.If)]:
+                t = blk.test
+                rec = None
+                for cand in ast.walk(t):
+                    if isinstance(cand, ast.Attribute) and norm(cand.value) == "self" and cand.attr.endswith("clk_out"):
+                        rec = cand.attr
+                if rec is None:
+                    continue
+                others = sorted({norm(x.value) for b in blk.body for x in ast.walk(b)
+                                 if isinstance(x, ast.Subscript) and isinstance(x.value, ast.Attribute) and norm(x.value.value) == "self" and
+                                 x.value.attr.endswith("clk_out") and x.value.attr != rec})
+                n += 1
+                ctx.ob("G13", D + fname, f"{cname}.do_finalize", f"the {rec} block reads its own request record", not others,
+                       "" if not others else f"the block that emits the `{rec}` output reads {others}: its divider is computed for another "
+                                             f"output's request (and fails when that output was not requested)", blk)
+    return n
+
+
 def run(ctx):
+    ctx.rule("G13", "one request record per output: in do_finalize the block of an output reads the frequency / margin of that output's "
+                    "own record", min_sites=2)
+    _g13(ctx)
     ctx.rule("G1", "every loop variable that reaches the returned configuration iterates a declared *_range attribute "
                    "(range/reversed/clkdiv_range of self.<x>range, possibly through locals); frozen exceptions with reason",
              min_sites=16)
